@@ -37,7 +37,26 @@ impl Ctx {
     /// The budget is counted in CPU time of this part process, so that a loaded machine (other checks running next to
     /// this one) does not silently shrink the explored space; wall time only bounds it at 5x (parts that mostly wait).
     pub fn over_budget(&self) -> bool {
-        cpu_seconds() > self.budget_s || self.started.elapsed().as_secs_f64() > 5.0 * self.budget_s
+        // the process CPU clock is a real system call: ask it on every 64th call, or when 20 ms of wall time have
+        // passed since the last answer (the wall clock is read without entering the kernel)
+        use std::sync::atomic::{AtomicBool, AtomicU64, Ordering::Relaxed};
+        static CALLS: AtomicU64 = AtomicU64::new(0);
+        static LAST_US: AtomicU64 = AtomicU64::new(0);
+        static OVER: AtomicBool = AtomicBool::new(false);
+        if OVER.load(Relaxed) {
+            return true;
+        }
+        let n = CALLS.fetch_add(1, Relaxed);
+        let now_us = self.started.elapsed().as_micros() as u64;
+        if n % 64 != 0 && now_us.saturating_sub(LAST_US.load(Relaxed)) < 20_000 {
+            return false;
+        }
+        LAST_US.store(now_us, Relaxed);
+        let over = cpu_seconds() > self.budget_s || self.started.elapsed().as_secs_f64() > 5.0 * self.budget_s;
+        if over {
+            OVER.store(true, Relaxed);
+        }
+        over
     }
     pub fn run_dir(&self) -> PathBuf {
         let d = self.root.join("run");
